@@ -32,6 +32,7 @@ fn deep_block(lang: &str, depth: usize) -> String {
             t.push_str(&format!("{}7\n{}zz\n", " ".repeat(depth), " ".repeat(depth)));
             t
         }
+        "markscan" => format!("{}@m x 7 ;{}", "{ ".repeat(depth), " }".repeat(depth)),
         "cdecl" => format!("{}t * p; x * 7;{}", "{ ".repeat(depth), " }".repeat(depth)),
         _ => String::new(),
     }
@@ -341,7 +342,7 @@ fn main() {
     }
     let seed = seed_from_env();
     let sizes: &[usize] = if tier_is_thorough() { &[1000, 10000, 100000] } else { &[1000, 10000] };
-    for lang in ["lst", "arith", "jsonish", "stmt", "cdecl", "pyish"] {
+    for lang in ["lst", "arith", "jsonish", "stmt", "cdecl", "pyish", "markscan"] {
         let b = match zoo::load(lang) {
             Ok(b) => b,
             Err(e) => {
